@@ -209,6 +209,22 @@ func genC04(seed uint64, idx int) *Plan {
 			h.Steps = append(h.Steps, HStep{Side: "c", Kind: "ccs"})
 		}
 		h.Steps = append(h.Steps, HStep{Side: "c", Kind: kind, A: r.IntN(1 << 20)})
+		if (idx/10)%3 == 1 {
+			// the backend's flush with the HelloRetryRequest ends a few octets into
+			// its next record (which never gets to be completed)
+			h.Concurrent = false
+			var steps []HStep
+			for _, st := range h.Steps {
+				if st.Side == "b" && st.Kind == "ccs" {
+					continue
+				}
+				if st.Side == "b" && st.Kind == "hrr" {
+					st.Join, st.SlowReturn, st.Spill = false, false, 1+r.IntN(4)
+				}
+				steps = append(steps, st)
+			}
+			h.Steps = append(steps, HStep{Side: "b", Kind: "ccs"})
+		}
 		return &Plan{Kind: "history", Seed: seed, History: h}
 	}
 	p := genScriptBase(r)
